@@ -9,8 +9,8 @@ import (
 
 func init() {
 	register(&propDef{
-		id:  "C01",
-		run: runC01,
+		id:          "C01",
+		run:         runC01,
 		explanation: "Static analysis of the read path and of the mechanisms that keep the newest entry reachable: (1) comparer discipline — no raw byte comparison on keys anywhere in the engine packages; (2) lookup order and early return on a hit in DB.get/has (aux buffer → effective → frozen → tables) on every CFG path; (3) the guards inside version.get's per-table callback (level-0 newest-wins by sequence, deeper-level first hit stops the walk, tombstones hide older values) extracted from the SSA branch structure; (4) walkOverlapping visits a table only when the comparer says it may hold the key and stops when a callback says so; (5) the compaction drop guard and user-key cut rule; (6) a manifest-rotating commit carries the edit's own journal/sequence numbers, transactions never record a sequence ahead of an unflushed buffer, and journal replay restores db.seq. Each is a necessary condition of the ordered-map behaviour (breaking it yields a history with a stale/missing read). The map equivalence over all histories, options and comparers is NOT decided.",
 		notCovered:  "that these mechanisms compose into map semantics for every history, option set and comparer; table/block encodings; index arithmetic of binary searches beyond 'they use the comparer'",
 		assumptions: []string{"a user comparer satisfying the documented contract", "iterator/table/memdb primitives behave as specified (C13, C14)"},
